@@ -304,7 +304,7 @@ def run_live(case):
 def SHARDS(tier):
     cat = catalogue()
     k = 1 if tier == "quick" else 2
-    sh = [{"part": "enum", "index": i, "preemptions": k} for i in range(len(cat))]
+    sh = [{"part": "enum", "cat": i, "preemptions": k} for i in range(len(cat))]
     sh += [{"part": "random"} for _ in range(4 if tier == "quick" else 8)]
     sh += [{"part": "live"}]
     return sh
@@ -313,7 +313,7 @@ def SHARDS(tier):
 def run(ctx):
     sh = ctx.shard
     if sh.get("part") == "enum":
-        cfg = catalogue()[sh["index"]]
+        cfg = catalogue()[sh["cat"]]
 
         def run_with(preempt):
             sch, f = run_trial(cfg, preempt=preempt or None)
